@@ -77,6 +77,10 @@ func runC05(p *Prog, r *Report) {
 	if want("C05.8") {
 		ruleAtomicAlignment(p, r, "C05.8")
 	}
+	if want("C05.16") {
+		// transaction / large-batch records are numbered above every earlier write (shared with C11.1b)
+		ruleTrRecordSeq(p, r, "C05.16")
+	}
 	if want("C05.15") {
 		// every read uses its own view's sequence (shared with C03.5)
 		ruleReadSeqOrigin(p, r, "C05.15")
